@@ -29,6 +29,7 @@ PROPS = {
     'C09': ('c09', 'proof', ['SUNalg', 'instantiate']),
     'C12': ('c12', 'other', ['SUNalg']),
     'C04': ('c04', 'other', ['SQuIDS', 'SUNalg', 'instantiate']),
+    'C07': ('c07', 'other', ['MatrixExp', 'SUNalg']),
     'C10': ('c10', 'other', ['SQuIDS', 'SUNalg', 'instantiate']),
     'C05': ('c05', 'other', ['SQuIDS', 'SUNalg', 'instantiate']),
     'C17': ('c17', 'other', ['SQuIDS', 'SUNalg', 'instantiate']),
